@@ -54,6 +54,12 @@ Proof.
   apply Z.eqb_eq in H1. apply nat_list_eqb_eq in H2. apply nat_list_eqb_eq in H3. congruence.
 Qed.
 
+Lemma nat_list_eqb_refl a : nat_list_eqb a a = true.
+Proof. induction a as [|x a IH]; simpl; [reflexivity|]. rewrite Nat.eqb_refl, IH. reflexivity. Qed.
+
+Lemma label_eqb_refl (p : label) : label_eqb p p = true.
+Proof. destruct p as [[m ca] cb]. simpl. rewrite Z.eqb_refl, !nat_list_eqb_refl. reflexivity. Qed.
+
 (* ---- segments of a pair: disjoint, and covering exactly the common-ancestor positions -- *)
 
 Definition label_mrca (l : label) : Z := fst (fst l).
